@@ -3,8 +3,8 @@ CONSTANTS
   Kinds = {"insert", "insert_cols", "ctas"}
   Schemas = {"none", "s"}
   Bare = {"a", "b"}
-  TAliases = {"x", "b", "y", "u", "v"}
-  SAliases = {"x", "y", "b", "u", "v"}
+  TAliases = {"x", "b", "y", "u", "v", "a"}
+  SAliases = {"x", "y", "b", "u", "v", "a"}
   ColNames = {"c", "d"}
   MaxRels = 3
   MaxItems = 3
